@@ -138,7 +138,7 @@ def count_theorems(pfile):
 
 def eval_case_file(outdir, name, timeout=1800):
     v = os.path.join(outdir, name + ".v")
-    rc, log = sh(["coqc", "-Q", COQ, "Verif", "-o", os.path.join(outdir, name + ".vo"), v], cwd=outdir, timeout=timeout)
+    rc, log = sh("ulimit -s unlimited 2>/dev/null || ulimit -s 1000000 2>/dev/null; exec coqc -Q %s Verif -o %s %s" % (COQ, os.path.join(outdir, name + ".vo"), v), cwd=outdir, timeout=timeout)
     for ext in (".vo", ".glob", ".vok", ".vos"):
         try:
             os.remove(os.path.join(outdir, name + ext))
